@@ -437,6 +437,29 @@ func c18Eval(cfg []string, plain string, names []string, ks []int) (*fw.Finding,
 	if !ok {
 		return nil, false
 	}
+	return c18Pair(cfg, plain, variant, strings.Join(names, "+")), true
+}
+
+// allUnreserved: the complete RFC 3986 unreserved set (the variation classes above use seven representatives).
+var allUnreserved = func() []string {
+	var out []string
+	for c := byte(0x21); c < 0x7f; c++ {
+		if (c >= 'a' && c <= 'z') || (c >= 'A' && c <= 'Z') || (c >= '0' && c <= '9') || strings.IndexByte("-._~", c) >= 0 {
+			out = append(out, string(c))
+		}
+	}
+	return out
+}()
+
+// alphabetURLs: one unreserved character, written as sp, in each component of the grammar that may carry escapes.
+func alphabetURLs(ch string, sp int) []string {
+	x := spell(ch, sp)
+	return []string{"http://h.test/p" + x + "q/r", "https://h.test/" + x, "http://h.test/?" + x + "=v&k=" + x, "ftp://h.test/p?k#f" + x, "ws://u@h.test:81/" + x + "?" + x + "#" + x}
+}
+
+// c18Pair: plain and variant must canonicalize to the same string (or both fail).
+func c18Pair(cfg []string, plain, variant, label string) *fw.Finding {
+	names := []string{label}
 	p := parserFor(cfg)
 	var a, b string
 	var ea, eb error
@@ -451,18 +474,21 @@ func c18Eval(cfg []string, plain string, names []string, ks []int) (*fw.Finding,
 			b = ub.String()
 		}
 	}); pan != "" {
-		return fw.F("panic", plain, "[%s] canonicalizing %q / %q panicked: %s", cfgName(cfg), plain, variant, pan), true
+		return fw.F("panic", plain, "[%s] canonicalizing %q / %q panicked: %s", cfgName(cfg), plain, variant, pan)
 	}
 	if (ea != nil) != (eb != nil) || a != b {
-		return fw.F("c18:spellings-differ:"+strings.Join(names, "+"), cfgName(cfg)+" :: "+plain, "[%s] %q canonicalizes to %q (err=%v) but its equivalent spelling %q to %q (err=%v)", cfgName(cfg), plain, a, ea, variant, b, eb), true
+		return fw.F("c18:spellings-differ:"+strings.Join(names, "+"), cfgName(cfg)+" :: "+plain, "[%s] %q canonicalizes to %q (err=%v) but its equivalent spelling %q to %q (err=%v)", cfgName(cfg), plain, a, ea, variant, b, eb)
 	}
-	return nil, true
+	return nil
 }
 
 func init() {
 	fw.RegisterEvaluator("c17", func(cs *fw.Case) *fw.Finding {
 		f, _ := c17Eval(cs.Cfg, string(cs.S[0]))
 		return f
+	})
+	fw.RegisterEvaluator("c18-pair", func(cs *fw.Case) *fw.Finding {
+		return c18Pair(cs.Cfg, string(cs.S[0]), string(cs.S[1]), string(cs.S[2]))
 	})
 	fw.RegisterEvaluator("c18", func(cs *fw.Case) *fw.Finding {
 		var names []string
@@ -534,6 +560,21 @@ func init() {
 					run("composed-profiles", cfg, x)
 				}
 			}
+			// every unreserved character in every spelling in every component that may carry escapes (the grammar space
+			// below uses seven representative characters)
+			c.Space("unreserved-alphabet")
+			for _, ch := range allUnreserved {
+				if !c.Mine() {
+					continue
+				}
+				for sp := 0; sp < nSpellings; sp++ {
+					for _, x := range alphabetURLs(ch, sp) {
+						for _, cfg := range [][]string{{"profile:GoogleSafeBrowsing"}, {"profile:Semantic"}, {"RepeatedPercentDecoding"}, {"RepeatedPercentDecoding", "SortQuery(keys)", "RemoveFragment"}} {
+							run("unreserved-alphabet", cfg, x)
+						}
+					}
+				}
+			}
 			c.Space("web-grammar")
 			tt := 2
 			if c.Thorough() {
@@ -573,6 +614,30 @@ func init() {
 			tt, vmax := 2, 2
 			if c.Thorough() {
 				tt, vmax = 2, 3
+			}
+			// every unreserved character (not only the seven representatives of the variation classes) in every
+			// escaped spelling, in every component that may carry escapes
+			c.Space("unreserved-alphabet")
+			for _, ch := range allUnreserved {
+				if !c.Mine() {
+					continue
+				}
+				plainURLs := alphabetURLs(ch, 0)
+				for sp := 1; sp < nSpellings; sp++ {
+					for i, v := range alphabetURLs(ch, sp) {
+						for _, cfg := range allProfiles {
+							pl, vv, cf := plainURLs[i], v, cfg
+							mk := func() *fw.Case { return &fw.Case{Kind: "c18-pair", Cfg: cf, S: fw.Strs(pl, vv, "respell-unreserved")} }
+							c.CurCase(mk)
+							c.Eval()
+							if f := c18Pair(cfg, pl, vv, "respell-unreserved"); f != nil {
+								c.Report(f, mk)
+							} else {
+								c.Nontrivial()
+							}
+						}
+					}
+				}
 			}
 			c.Space("variation-classes")
 			var plains []string
